@@ -184,7 +184,7 @@ def frame(msg: Message) -> bytes:
 
 class CaseInfo:
     __slots__ = ("choices", "tape", "cycles", "preempt", "timeouts", "n_sub_files", "n_expected", "paused_msgs",
-                 "log", "restarts", "pruned", "direct_triggers")
+                 "log", "restarts", "pruned", "direct_triggers", "triggers_while_pending")
 
     def __init__(self):
         self.choices = []
@@ -199,6 +199,7 @@ class CaseInfo:
         self.restarts = 0
         self.pruned = False
         self.direct_triggers = 0
+        self.triggers_while_pending = 0
 
 
 DEFAULT_OPTS = {"timecode": False, "threaded": True}
@@ -323,7 +324,8 @@ def _read_ql(path, defs_path, hdr_cls=MessageHeader):
                        f"file header says {fh.num_messages}")
     nbytes = sum(h.num_data_bytes for h in r.headers)
     want_total = QLFileHeader().size + n * (fh.message_header_size + fh.data_block_offset_size) + nbytes
-    if fh.message_header_size != HDR_SIZE or fh.num_data_bytes != nbytes or fh.total_bytes != want_total \
+    # (an empty file keeps the default header size: no message has fixed the layout yet)
+    if (n and fh.message_header_size != HDR_SIZE) or fh.num_data_bytes != nbytes or fh.total_bytes != want_total \
             or size != want_total:
         raise _Corrupt(
             f"{os.path.basename(path)}: inconsistent quicklogger file header {fh.to_dict()} for {n} messages with "
@@ -393,7 +395,7 @@ def run_case(datasets, history, tape, want_log=False, sleep_sets=False, max_afte
                     return Violation(f"corrupt/{fmt}" + ("/timecode-header" if timecode else ""), f"{tag}: {c}"
                                      + ("; the messages carry TimeCodeMessageHeader" if timecode else ""), None)
                 v = _compare(tag, fmt, got, exp_run[i], dontcare[i], frames, len(files), _dropped_stage(sched.log),
-                             _restaged(sched.log))
+                             info.triggers_while_pending > 0)
                 if v is not None:
                     if timecode and v.key.startswith("corrupt/"):
                         v.key += "/timecode-header"
@@ -456,6 +458,8 @@ def run_case(datasets, history, tape, want_log=False, sleep_sets=False, max_afte
                 elif op[0] == "t":
                     # the recording thread asks for a flush itself (public method, no deadline involved)
                     where = "trigger_write"
+                    if coll.write_to_disk._flag:  # peek at the shim, not an operation: names the bucket only
+                        info.triggers_while_pending += 1
                     coll.trigger_write()
                     info.direct_triggers += 1
                 elif op[0] == "restart":
@@ -486,7 +490,10 @@ def run_case(datasets, history, tape, want_log=False, sleep_sets=False, max_afte
                 sched.progress()
                 coll.close()
         except Deadlock as e:
-            pending = Violation("deadlock", f"{e.kind} during {where}(): {e.what}", None)
+            pending = Violation("deadlock" + ("/trigger-write-while-write-pending" if info.triggers_while_pending else ""),
+                                f"{e.kind} during {where}(): {e.what}"
+                                + ("; trigger_write() had been called while the previous write request was still pending"
+                                   if info.triggers_while_pending else ""), None)
         except HarnessError:
             raise
         except Exception as e:  # noqa: anything escaping from the public API while recording
@@ -568,12 +575,6 @@ def _dropped_stage(log) -> bool:
     return False
 
 
-def _restaged(log) -> bool:
-    """Did the recording thread raise write_to_disk while it was still raised (a second trigger_write() staged over a
-    buffer the writer had not taken yet)?  Names the bucket of a loss only."""
-    return any(tid == 0 and kind == "set" and name == "write_to_disk" and res for tid, kind, name, res in log)
-
-
 def _compare(tag, fmt, got, exp, dontcare, frames, nfiles, dropped_stage, restaged=False):
     """got: [(id, frame bytes)] read back; exp: ids that must be there in this order."""
     for mid, fb in got:
@@ -596,7 +597,8 @@ def _compare(tag, fmt, got, exp, dontcare, frames, nfiles, dropped_stage, restag
                "lost/staged-buffer-never-written" if dropped_stage else f"lost/{fmt}")
         return Violation(key, f"{tag}, {nfiles} file(s): {len(lost)} of {len(exp)} selected messages handed over while "
                          f"recording and not paused are not in the output: ids {lost[:8]}; read back {ids[:12]}"
-                         + ("; trigger_write() staged a new buffer while the previous write request was still pending"
+                         + ("; trigger_write() was called (and staged a new buffer) while the previous write request was "
+                            "still pending"
                             if restaged else
                             "; a write request was cleared before the writer thread had served it (stop() did not "
                             "wait for the writer's cycle)" if dropped_stage else ""), None)
